@@ -1,9 +1,56 @@
 import HedVerif.Driver.Util
+import HedVerif.Model.Bids
 open Lean
 namespace HedVerif.Driver.C16
-open HedVerif HedVerif.Driver
+open HedVerif HedVerif.Driver HedVerif.Bids
 
-/-- requests `{"op":"c16.<name>", ...}` of property C16 (stub: none yet) -/
-def handle (_op : String) (_j : Json) : Option (Except String Json) := none
+def errName : PErr → String
+  | .blankFileName => "BlankFileName"
+  | .badSuffixPiece => "BadSuffixPiece"
+  | .badKeyValue => "BadKeyValue"
+
+def colsOf : Json → Except String (Columns Json)
+  | Json.null => .ok []
+  | Json.obj kvs => .ok (kvs.toList.map fun (k, v) => (k.toList, v))
+  | _ => .error "content must be an object or null"
+
+def entryOf (j : Json) : Except String (Path × Columns Json) := do
+  let p ← (← getArr j "path").mapM asStr
+  let c ← colsOf (← getVal j "content")
+  pure (p, c)
+
+def pathStr (p : Path) : String := "/".intercalate (p.map String.ofList)
+def colsJson (c : Columns Json) : Json := jobj (c.map fun (k, v) => (String.ofList k, v))
+def chainJson (c : List (PFile Json)) : Json := jarr (c.map fun s => Json.str (pathStr s.path))
+
+def fileJson (g : Group Json) (o : PFile Json) : Json :=
+  jobj [("path", Json.str (pathStr o.path)),
+        ("suffix", jopt jstr o.suffix),
+        ("entities", jarr (o.ents.map fun (k, v) => jarr [jstr k, jstr v])),
+        ("chain", chainJson (chain g o)),
+        ("spec_chain", chainJson (specChain g o)),
+        ("has_sidecar", jbool (hasSidecar g o)),
+        ("merged", colsJson (mergeImpl g o)),
+        ("merged_old", colsJson (mergeImplOld g o)),
+        ("spec", colsJson (mergeSpec g o))]
+
+/-- requests of property C16:
+`{"op":"c16.group","tree":[{"path":[comp,…,name],"content":object|null},…] (walk order),
+  "excluded":[name,…],"suffix":"events"}` →
+`{"error":code}` or `{"sidecars":[file…],"datafiles":[file…]}` with, per file, its chain, the code's
+merge (fixed and unchanged algorithm) and the property's merge. -/
+def handle (op : String) (j : Json) : Option (Except String Json) :=
+  match op with
+  | "c16.group" => some do
+      let t ← (← getArr j "tree").mapM entryOf
+      let excl ← (← getArr j "excluded").mapM asStr
+      let sfx ← getStr j "suffix"
+      match load t excl sfx with
+      | .error e => pure <| jobj [("error", Json.str (errName e))]
+      | .ok g => pure <| jobj [("sidecars", jarr (g.sidecars.map (fileJson g))),
+                               ("datafiles", jarr (g.datafiles.map (fileJson g)))]
+  | "c16.exit" => some do
+      pure <| jobj [("exit", jnat (exitCode (← getArr j "issues")))]
+  | _ => none
 
 end HedVerif.Driver.C16
